@@ -11,7 +11,10 @@ from . import terms as T
 # column -> type (the harness table t; id is the primary key and never used in filters)
 SCHEMA = {"a": "int", "b": "int", "c": "int", "s": "str", "u": "str", "d": "datetime",
           "flag": "bool", "f": "float"}
-EXTRA_SCHEMA = {"g": "guid", "dd": "date", "m": "decimal"}
+EXTRA_SCHEMA = {"g": "guid", "dd": "date", "m": "decimal", "iv": "duration"}
+# durations compared with the interval column iv: stored values, their neighbours one microsecond away
+IV_LITS = ["P1D", "PT24H", "P1DT2H", "PT26H", "-P2D", "PT0.5S", "PT0S", "P150000D", "P150000DT0.000001S",
+           "P150000DT0.000002S", "-P150000DT0.000001S", "P149999DT24H", "PT0.000001S", "P150000DT0.000003S"]
 # literals compared with the fixed-point column m (5 digits, 2 decimals): some carry more
 # digits than the column keeps, some sit exactly on / next to stored values
 DEC_LITS = ["100.12", "100.125", "100.115", "0.3", "0.30000000000000004", "0.2999", "-1.5", "-1.505",
